@@ -156,7 +156,9 @@ def expected_records(bam_path, regions, chroms):
         for c in f.references:
             for s, e in per.get(c, []):
                 for a in f.fetch(contig=c, start=s, stop=e):
-                    key = (a.query_name, a.flag, a.reference_start, a.cigarstring)
+                    # the whole record: with names recurring across samples, two different reads may share name, flag,
+                    # start and CIGAR (seen once in 50 000 runs of the thorough tier)
+                    key = a.to_string()
                     if key in seen:
                         continue
                     seen.add(key)
